@@ -538,6 +538,28 @@ def release_rules(ctx):
             and kind(c[3]) == 'attr' and c[3][2] == 'busNames' and
             c[3][1] != selft and ((c[1] == 'not in') == pol)
             for c, pol in p.cond)
+        # ... the CALLER's record (`self.clients[dbusCaller].busNames`), or
+        # the head's on a path that found the head to be the caller: a
+        # waiting client that releases must not wipe the owner's record
+        callerp = ('param', rl.params()[2]) if len(rl.params()) > 2 else None
+        if okc and callerp is not None:
+            bases = [ev[1][1] for ev in iter_events(p.trace)
+                     if ev[0] == 'delsub' and kind(ev[1]) == 'attr' and
+                     ev[1][2] == 'busNames' and ev[1][1] != selft] + [
+                ev[1][2][1][1] for ev in iter_events(p.trace)
+                if ev[0] == 'call' and kind(ev[1][2]) == 'attr' and
+                ev[1][2][2] == 'pop' and kind(ev[1][2][1]) == 'attr' and
+                ev[1][2][1][2] == 'busNames' and ev[1][2][1][1] != selft]
+            mine = all(contains(b, lambda x: x == callerp) or is_owner
+                       for b in bases)
+            ctx.ob('C13.D3', rl.qualname, 'released-forgets-the-callers-'
+                   'record', mine,
+                   'ReleaseName drops the record of the name on %s, which '
+                   'on this path is not known to be the caller\'s '
+                   'connection: a waiting client that releases wipes the '
+                   'OWNER\'s record - when the owner later disconnects, the '
+                   'name is not released and stays with a dead connection'
+                   % (term_str(bases[0])[:60] if bases else '?'))
         ctx.ob('C13.D3', rl.qualname, 'released-forgets-name', okc,
                'after RELEASED the connection must no longer record the '
                'name (it neither owns nor waits for it)')
